@@ -5,7 +5,8 @@
                                   checkAuthClaims
      pkg/server/server.go         checkAuthz, checkWriteAuthz, checkCreateStoreAuthz,
                                   getAccessibleStores (error => ErrUnauthorizedResponse)
-     pkg/server/stores.go         ListStores (passes the accessible ids to the query)
+     pkg/server/stores.go         ListStores (empty accessible list => empty page, fix c075cf0;
+                                  otherwise passes the accessible ids to the query)
      pkg/server/commands/list_stores.go + pkg/storage/memory/memory.go:847 (sqlite.go:1091)
                                   the IDs filter: `len(options.IDs) > 0`, i.e. empty = no filter
    Definitions only.  The API-method -> relation table, the relation constants, the module limit
@@ -225,26 +226,40 @@ Inductive ls_result :=
 | LSDenied
 | LSStores (ids : list store_id).
 
-(* Server.ListStores under access control *)
+(* Server.ListStores (pkg/server/stores.go, after fix c075cf0).  [ids] is what getAccessibleStores
+   returned: None = nil slice (access control off / skip-authz context: no filter), Some l = the
+   authorizer's list.  `if storeIDs != nil && len(storeIDs) == 0 { return empty page }` comes
+   before the query, so the backends never see an empty non-nil list from this handler. *)
+Definition handler_list_stores (backend : list store_id -> bytes -> list (store_id * bytes) -> list (store_id * bytes))
+           (ids : option (list store_id)) (name : bytes) (all : list (store_id * bytes))
+  : list (store_id * bytes) :=
+  match ids with
+  | Some [] => []
+  | Some l => backend l name all
+  | None => backend [] name all
+  end.
+
+(* under access control: denied, or the handler applied to the authorizer's (non-nil) list *)
 Definition list_stores (g : grant_oracle) (la : list_oracle) (cl : claims) (name : bytes)
            (all : list (store_id * bytes)) : ls_result :=
   match accessible_stores g la cl with
   | None => LSDenied
-  | Some ids => LSStores (map fst (backend_list_stores ids name all))
+  | Some ids => LSStores (map fst (handler_list_stores backend_list_stores (Some ids) name all))
   end.
 
 Definition list_stores_sqlite (g : grant_oracle) (la : list_oracle) (cl : claims) (name : bytes)
            (all : list (store_id * bytes)) : ls_result :=
   match accessible_stores g la cl with
   | None => LSDenied
-  | Some ids => LSStores (map fst (backend_list_stores_sqlite ids name all))
+  | Some ids => LSStores (map fst (handler_list_stores backend_list_stores_sqlite (Some ids) name all))
   end.
 
-(* trigger of finding F9: the caller may list stores and the authorizer found none *)
-Definition tr_list_stores_empty_grant (g : grant_oracle) (la : list_oracle) (cl : claims) : bool :=
+(* historical: the handler before c075cf0 passed the list straight to the backend *)
+Definition list_stores_pre_c075cf0 (g : grant_oracle) (la : list_oracle) (cl : claims) (name : bytes)
+           (all : list (store_id * bytes)) : ls_result :=
   match accessible_stores g la cl with
-  | Some [] => true
-  | _ => false
+  | None => LSDenied
+  | Some ids => LSStores (map fst (backend_list_stores ids name all))
   end.
 
 (* ------------------------------------------------------------------------------------ *)
